@@ -27,7 +27,8 @@ sh("git checkout -q -- . ; rm -f tests/mut_demo.rs; git checkout -q --detach $(g
 ok = step("apply", "git apply %s/patch.diff" % src, True)
 ok = ok and step("suite_with_patch", "cargo test --workspace --offline 2>&1 | tail -40", True)
 shutil.copy(os.path.join(src, "demo.rs"), os.path.join(wt, "tests", "mut_demo.rs"))
-ok = ok and step("demo_with_patch_fails", "cargo test --offline --test mut_demo 2>&1 | tail -30", False)
+DF = os.environ.get("MUT_DEMO_FLAGS", "")
+ok = ok and step("demo_with_patch_fails", "cargo test --offline %s --test mut_demo 2>&1 | tail -30" % DF, False)
 caught = {}
 if ok:
     for c in checks:
@@ -42,7 +43,7 @@ if ok:
                 os.makedirs("/verif/seeded/%s" % tag, exist_ok=True)
                 shutil.copy(path, "/verif/seeded/%s/replay_%s.txt" % (tag, c))
 sh("git checkout -q -- .")
-ok = ok and step("demo_without_patch_passes", "cargo test --offline --test mut_demo 2>&1 | tail -30", True)
+ok = ok and step("demo_without_patch_passes", "cargo test --offline %s --test mut_demo 2>&1 | tail -30" % DF, True)
 sh("rm -f tests/mut_demo.rs; git checkout -q -- .")
 print("confirmed" if ok else "NOT CONFIRMED", json.dumps(caught))
 if ok:
